@@ -108,11 +108,41 @@ Section Model.
         end
     end.
 
+  (** The raft-backed deployment (backend_raft.go IncrBy / Set NX): the value is
+      read at a reserved timestamp ([PBegun]/[PRead] as above), but the write
+      goes through [mutate], which reserves a *fresh* start timestamp; the
+      percolator prewrite check refuses the write iff the newest write of the
+      key has commitTs >= that start timestamp (percolator/txn.go
+      prewriteMutation).  Prewrite + commit are one step here (a lock only
+      delays a competitor). *)
+  Definition tstep_raft (g : G) (i : nat) : option G :=
+    match nth_error (threads g) i with
+    | None => None
+    | Some t =>
+        match t_ops t, t_pc t with
+        | o :: rest, PWrote rts w =>
+            let start := next g in
+            if existsb (fun p => start <=? fst p) (hist g) then
+              Some {| hist := hist g; next := next g + 2; acked := acked g; oks := oks g;
+                      conflicts := S (conflicts g);
+                      threads := set_nth (threads g) i {| t_ops := rest; t_pc := PIdle |} |}
+            else
+              Some {| hist := (start + 1, w) :: hist g; next := next g + 2;
+                      acked := (match o with OIncr d => acked g + d | OSetNX _ => acked g end)%Z;
+                      oks := (match o with OIncr _ => oks g | OSetNX _ => S (oks g) end);
+                      conflicts := conflicts g;
+                      threads := set_nth (threads g) i {| t_ops := rest; t_pc := PIdle |} |}
+        | _, _ => tstep g i
+        end
+    end.
+
   Definition init (progs : list (list op)) : G :=
     {| hist := []; next := 1; acked := 0; oks := 0; conflicts := 0;
        threads := map (fun p => {| t_ops := p; t_pc := PIdle |}) progs |}.
 
   Definition final (progs : list (list op)) (sched : list nat) : G := run tstep (init progs) sched.
+
+  Definition final_raft (progs : list (list op)) (sched : list nat) : G := run tstep_raft (init progs) sched.
 
   Definition is_incr (o : op) : bool := match o with OIncr _ => true | _ => false end.
   Definition is_setnx (o : op) : bool := match o with OSetNX _ => true | _ => false end.
